@@ -151,9 +151,12 @@ class Interposer:
         self.fdpath = {}
         self._n = 0
         self.lock = threading.RLock()
+        self._tls = threading.local()
 
     # -- identification ---------------------------------------------------------
     def actor(self):
+        if getattr(self._tls, "busy", False):
+            return None  # calls made by a policy itself (snapshots, probes) pass through
         return self.actors.get(threading.get_ident())
 
     def under(self, p):
@@ -167,7 +170,11 @@ class Interposer:
         ev = Event(a, self._n, op, path, path2, extra)
         self._n += 1
         if self.policy is not None:
-            self.policy.before(self, ev)  # may block (scheduler), snapshot, or raise
+            self._tls.busy = True
+            try:
+                self.policy.before(self, ev)  # may block (scheduler), snapshot, or raise
+            finally:
+                self._tls.busy = False
         self.trace.append(ev)
         return ev
 
@@ -404,8 +411,8 @@ class CrashPolicy:
     def before(self, ip, ev):
         # the previous events have been performed; what is on disk now is the crash state before `ev`
         self.snapshot(ip, ev.n, ev)
-        if ev.op in ("write", "open-w", "truncate", "close-w", "flush"):
-            self.unsynced[ev.path] = True
+        if ev.op in ("write", "open-w", "truncate"):
+            self.unsynced[ev.path] = True  # (flush/close after an fsync add no new data)
         elif ev.op == "fsync":
             self.unsynced.pop(ev.path, None)
         elif ev.op in ("replace", "rename") and ev.path in self.unsynced:
